@@ -139,8 +139,8 @@ func (m *c06mon) After(g *gw.GW, ev string, sn []gw.SNOut, mq []gw.MQOut, setup 
 		m.ownState = txNow != "" && (txNow != m.txPrev || strings.HasPrefix(m.superseded, "first transmission"))
 	}
 	*idx++
-	if m.broken[x.name] {
-		return nil
+	if m.broken[x.name] || want == "" {
+		return nil // (a stray datagram of the other side: nothing is expected of it, it only must not disturb)
 	}
 	got := false
 	for _, o := range sn {
@@ -239,6 +239,46 @@ func c06specs() []gw.Spec {
 			}
 		}
 	}
+	// stale-acknowledgement family: a broker-started exchange with id m has finished; the client's acknowledgement
+	// of it arrives once more (it had answered a retransmission as well) at any point of a NEW broker-started
+	// exchange of the other QoS under the same id
+	{
+		mid := uint16(1)
+		_, bxs := c06exchanges(mid)
+		var q1x, q2x exchange6
+		for _, bx := range bxs {
+			switch bx.name {
+			case "broker PUBLISH q1":
+				q1x = bx
+			case "broker PUBLISH q2":
+				q2x = bx
+			}
+		}
+		evs := func(x exchange6) []string {
+			var out []string
+			for _, st := range x.steps {
+				out = append(out, st.ev)
+			}
+			return out
+		}
+		type stale struct {
+			name  string
+			ev    string
+			old   exchange6
+			fresh exchange6
+		}
+		for _, k := range []stale{
+			{"PUBACK of the finished QoS 1 exchange again", gw.EvC("C:PUBACK again", gw.Puback(1, mid, 0)), q1x, q2x},
+			{"PUBCOMP of the finished QoS 2 exchange again", gw.EvC("C:PUBCOMP again", gw.Pubcomp(mid)), q2x, q1x},
+			{"PUBREC of the finished QoS 2 exchange again", gw.EvC("C:PUBREC again", gw.Pubrec(mid)), q2x, q1x},
+		} {
+			k := k
+			st := append(append([]string{}, setup...), evs(k.old)...)
+			out = append(out, gw.Spec{Name: fmt.Sprintf("%s || %s (msg id %d)", k.name, k.fresh.name, mid), Cfg: cfg, Setup: st, NewMonitor: func() gw.Monitor {
+				return &c06mon{mid: mid, cx: exchange6{name: k.name, steps: []xstep{{k.ev, ""}}}, bx: k.fresh, maxTimer: maxT, broken: map[string]bool{}}
+			}})
+		}
+	}
 	return out
 }
 
@@ -250,7 +290,7 @@ func TestC06(t *testing.T) {
 	}
 	rep := explore.NewReport("C06", "model_checking")
 	gw.BFSCheck(rep, specs, gw.BFSOpts{Test: "TestC06"}, 240, 1500)
-	rep.Coverage["rule"] = "gateway side: (superseded family: an abandoned client exchange with the same id - another request or the first transmission of the same one - 1 s before the observed exchange; its expiry must not remove the newer state) for each pair (client-started exchange in {PUBLISH q1, SUBSCRIBE, PUBLISH q2, REGISTER}) x (broker-started exchange in {PUBLISH q1, PUBLISH q2, PUBLISH q1 on a new topic} with message id 1, and PUBLISH q0 on a new topic whose REGISTER uses the gateway-chosen id 0xFFFF) with the same message id: BFS over every shuffle of their steps with up to 2 (thorough 3) timer expiries at any position; each step must produce the output it produces when its exchange runs alone (differential expectation: the scripts' own step/response pairs)"
+	rep.Coverage["rule"] = "gateway side: (stale-acknowledgement family: the final or intermediate acknowledgement of a finished broker-started exchange arrives again at any point of a new broker-started exchange of the other QoS with the same id) (superseded family: an abandoned client exchange with the same id - another request or the first transmission of the same one - 1 s before the observed exchange; its expiry must not remove the newer state) for each pair (client-started exchange in {PUBLISH q1, SUBSCRIBE, PUBLISH q2, REGISTER}) x (broker-started exchange in {PUBLISH q1, PUBLISH q2, PUBLISH q1 on a new topic} with message id 1, and PUBLISH q0 on a new topic whose REGISTER uses the gateway-chosen id 0xFFFF) with the same message id: BFS over every shuffle of their steps with up to 2 (thorough 3) timer expiries at any position; each step must produce the output it produces when its exchange runs alone (differential expectation: the scripts' own step/response pairs)"
 	rep.Assumptions = []string{"default schedule within a step"}
 	rep.Finish()
 }
